@@ -42,7 +42,7 @@ def State__init__(self, name, trace, type, method, position, read='maybe', set='
 def wf_state(s):
     return (instance_of(s, State) and is_str(s.read) and is_str(s.set) and is_str(s.over) and rso(s.read) and rso(s.set)
             and rso(s.over) and has_attr(s, 'name') and has_attr(s, 'type') and has_attr(s, 'over_position')
-            and has_attr(s, 'trace'))
+            and has_attr(s, 'trace') and has_attr(s, 'position') and has_attr(s, 'method'))
 
 
 @target("pedal.tifa.state:State.copy")
@@ -78,3 +78,121 @@ def combine_states(self, left, right):
             result.read == lub(left.read, right.read) and result.set == lub(left.set, right.set)
             and result.over == lub(left.over, right.over)))
     ensures("stays_in_the_lattice", rso(result.read) and rso(result.set) and rso(result.over))
+
+
+# ---- the diagnosis rules themselves --------------------------------------------------------------------------
+# find_variable_scope / find_variable_out_of_scope (the scope walk) are abstract callees: they hand back an
+# Identifier; what is decided here is what is reported, and which flags the new state gets, as a function of that
+# Identifier's three-valued flags.
+
+@spec
+def wf_identifier(v):
+    return (is_obj(v) and is_bool(v.exists) and is_bool(v.in_scope) and has_attr(v, 'scoped_name')
+            and implies(bv(v.exists), wf_state(v.state) and is_str(v.scoped_name)))
+
+
+@spec
+def wf_core(self):
+    return (instance_of(self, TifaCore) and has_attr(self, 'report') and is_list(self.path_chain) and nitems(self.path_chain) >= 1
+            and is_dict(self.name_map) and has_key(self.name_map, item(self.path_chain, 0))
+            and is_dict(at(self.name_map, item(self.path_chain, 0))) and is_dict(self.loop_usages)
+            and is_list(self.scope_chain) and nitems(self.scope_chain) >= 1 and is_dict(self.class_scopes)
+            and distinct(self.name_map, self.loop_usages, self.class_scopes, at(self.name_map, item(self.path_chain, 0)))
+            and forall_val(lambda k: implies(has_key(self.loop_usages, k), is_list(at(self.loop_usages, k))))
+            and forall_val(lambda k: implies(has_key(self.class_scopes, k), is_obj(at(self.class_scopes, k)))))
+
+
+@target("pedal.tifa.tifa_core:TifaCore.load_variable")
+def load_variable(self, name, position=None):
+    requires(wf_core(self) and is_str(name))
+    abstract("self._scope_chain_str", raises=None, ensures=[is_str(result)])
+    abstract("self.find_variable_scope", raises=None, label="scope_lookup",
+             ensures=[wf_identifier(result), eqv(result, ghost_val('found_value'))])
+    abstract("self.find_variable_out_of_scope", raises=None, label="elsewhere_lookup",
+             ensures=[is_obj(result), is_bool(result.exists), eqv(result, ghost_val('elsewhere_value'))])
+    abstract("self.locate", raises=None)
+    abstract("AnyType", raises=None)
+    abstract("read_out_of_scope", raises=None, modifies=[ghost('issued_out_of_scope')],
+             ensures=[ghost('issued_out_of_scope') == old(ghost('issued_out_of_scope')) + 1])
+    abstract("initialization_problem", raises=None, modifies=[ghost('issued_initialization')],
+             ensures=[ghost('issued_initialization') == old(ghost('issued_initialization')) + 1])
+    abstract("possible_initialization_problem", raises=None, modifies=[ghost('issued_possible')],
+             ensures=[ghost('issued_possible') == old(ghost('issued_possible')) + 1])
+    abstract("self._issue", raises=None)
+    let(found=ghost_val('found_value'))
+    let(elsewhere=ghost_val('elsewhere_value'))
+    modifies(mapping(at(self.name_map, item(self.path_chain, 0))), mapping(self.loop_usages), items_of_any(),
+             ghost('issued_out_of_scope'), ghost('issued_initialization'), ghost('issued_possible'))
+    raises_nothing()
+    ensures("the_read_is_recorded", exact_instance(result, State) and fresh(result) and result.read == 'yes')
+    ensures("initialization_problem_iff_no_path_assigned", ghost('issued_initialization') == old(ghost('issued_initialization')) + (
+        1 if ((not bv(found.exists) and not bv(elsewhere.exists)) or (bv(found.exists) and found.state.set == 'no')) else 0))
+    ensures("possible_problem_iff_some_paths_assigned", ghost('issued_possible') == old(ghost('issued_possible')) + (
+        1 if (bv(found.exists) and found.state.set == 'maybe' and name != '*return') else 0))
+    ensures("out_of_scope_read_iff_only_defined_elsewhere", ghost('issued_out_of_scope') == old(ghost('issued_out_of_scope')) + (
+        1 if (not bv(found.exists) and bv(elsewhere.exists)) else 0))
+    ensures("assigned_on_every_path_is_silent", implies(bv(found.exists) and found.state.set == 'yes',
+            ghost('issued_initialization') == old(ghost('issued_initialization'))
+            and ghost('issued_possible') == old(ghost('issued_possible'))
+            and ghost('issued_out_of_scope') == old(ghost('issued_out_of_scope'))))
+    ensures("set_flag_carried", implies(bv(found.exists), result.set == found.state.set and result.over == found.state.over))
+    ensures("unknown_name_becomes_unassigned_but_read", implies(not bv(found.exists), result.set == 'no' and result.over == 'no'))
+
+
+@target("pedal.tifa.tifa_core:TifaCore.store_variable")
+def store_variable(self, name, store_type, position=None, force_create=False):
+    requires(wf_core(self) and is_str(name) and is_bool(force_create))
+    abstract("self._scope_chain_str", raises=None, ensures=[is_str(result)])
+    abstract("self.find_variable_scope", raises=None, label="scope_lookup",
+             ensures=[wf_identifier(result), eqv(result, ghost_val('found_value'))])
+    abstract("self.locate", raises=None)
+    abstract("self._in_module", raises=None, ensures=[is_bool(result)])
+    abstract("is_subtype", raises=None, ensures=[is_bool(result)])
+    abstract("write_out_of_scope", raises=None)
+    abstract("type_changes", raises=None)
+    abstract("self._issue", raises=None)
+    abstract("self.class_scopes[current_scope].add_attr", raises=None, label="class_attr")
+    let(found=ghost_val('found_value'))
+    modifies(mapping(at(self.name_map, item(self.path_chain, 0))))
+    raises_nothing()
+    ensures("a_state_is_stored", exact_instance(result, State) and fresh(result) and eqv(result.type, store_type))
+    ensures("new_variable_is_set_and_unread", implies(not bv(found.exists) or bv(force_create),
+            result.set == 'yes' and result.read == 'no' and result.over == 'no'))
+    ensures("assigned_and_never_read_is_overwritten", implies(
+        bv(found.exists) and not bv(force_create) and found.state.set == 'yes' and found.state.read == 'no',
+        result.over == 'yes' and result.set == 'yes' and result.read == 'no'))
+    ensures("otherwise_set_again_and_unread", implies(
+        bv(found.exists) and not bv(force_create) and not (found.state.set == 'yes' and found.state.read == 'no'),
+        result.set == 'yes' and result.read == 'no' and result.over == found.state.over))
+
+
+@spec
+def in_scope_state(self, k, path_id):
+    return has_key(at(self.name_map, path_id), k) and upred('in_scope', k)
+
+
+@target("pedal.tifa.tifa_core:TifaCore._finish_scope")
+def _finish_scope(self):
+    """unused / overwritten are reported from the flags alone: unused iff read == 'no' (and the name is not `_`),
+    overwritten iff over == 'yes' - for every name of the scope, and nothing else is reported"""
+    requires(wf_core(self))
+    let(names=at(self.name_map, item(self.path_chain, 0)))
+    requires(forall_val(lambda k: implies(has_key(names, k), wf_state(at(names, k)) and is_str(at(names, k).name))))
+    abstract("self.in_scope", raises=None, label="in_scope", ensures=[is_bool(result), bv(result) == upred('in_scope', arg0)])
+    abstract("overwritten_variable", raises=None, modifies=[ghost('issued_overwritten')],
+             ensures=[ghost('issued_overwritten') == old(ghost('issued_overwritten')) + 1])
+    abstract("unused_variable", raises=None, modifies=[ghost('issued_unused')],
+             ensures=[ghost('issued_unused') == old(ghost('issued_unused')) + 1])
+    abstract("self._issue", raises=None)
+    define(count_def('unused', lambda j: upred('in_scope', key_at(names, j)) and at(names, key_at(names, j)).read == 'no'
+                     and at(names, key_at(names, j)).name != '_'))
+    define(count_def('overwritten', lambda j: upred('in_scope', key_at(names, j)) and at(names, key_at(names, j)).over == 'yes'))
+    modifies(ghost('issued_overwritten'), ghost('issued_unused'))
+    raises_nothing()
+    invariant(1, "one_report_per_unread_name", ghost('issued_unused') == entry(ghost('issued_unused')) + count_at('unused', seen),
+              modifies=[ghost('issued_unused'), ghost('issued_overwritten')])
+    invariant(1, "one_report_per_overwritten_name",
+              ghost('issued_overwritten') == entry(ghost('issued_overwritten')) + count_at('overwritten', seen))
+    ensures("unused_reports_match_the_flags", ghost('issued_unused') == old(ghost('issued_unused')) + count_at('unused', nkeys(names)))
+    ensures("overwritten_reports_match_the_flags",
+            ghost('issued_overwritten') == old(ghost('issued_overwritten')) + count_at('overwritten', nkeys(names)))
